@@ -62,6 +62,16 @@ CHECKS = {
             "Every class logs pre/post events; pre_randomize writes generated values into non-random fields read by constraints. Per call: pre and post each exactly once on exactly the objects random in the call, all pre before any post, result satisfies the reference under the pre-written values, post sees the final values.",
             "Callbacks do not randomize recursively; on SolveFailure only pre events are judged.",
             "5/C17"),
+    "C09": ("exploration",
+            "generated scenarios executed in fresh child processes under a variant matrix (hash seed x global seed x unrelated activity x diagnostics), traces compared; generated snapshot/restore histories against recorded sequences",
+            "Metamorphic: the same scenario must give the same value trace under every variant (quick: baseline + 6 variants covering every level of every factor; thorough: the full 119-cell matrix sliced over shards). Snapshot histories check get_randstate independence, set_randstate copying and exact replay.",
+            "Memory layout is approximated by hash-seed variation and allocation churn; a failing call is compared as 'failed' regardless of exception type.",
+            "5/C09"),
+    "C16": ("fault_enumeration",
+            "generated histories with one injected fault from an enumerated set of fault positions; structural idle-state oracle + twin-session differential",
+            "Fault kinds: exception in a constraint body during construction (top level, if_then, implies, foreach), in a randomize_with body (before/after/nested), in pre/post_randomize of the top object or a sub-object, SolveFailure with foreach/dist rewrites active, SolveFailure with solve_fail_debug=1. After the faulted call the construction stacks must be empty and no solver handle or override constraint may remain; a twin session without the failed call must behave identically afterwards.",
+            "Structural introspection uses private attribute names and degrades to 'not checked'; values left by the aborted call are equalised, not compared.",
+            "5/C16"),
     "C10": ("exploration",
             "Hypothesis-generated bin specifications, exhaustive value sweep per specification, differential against an independent bin-partition model",
             "Generated coverpoint specifications (bin / bin_array with every count form, overlapping and unordered ranges, auto-bins, enum auto-bins, ignore/illegal bins, iff by field or callable) sampled with every value of the coverpoint's type; after every sample the per-bin increment vector (regular, ignore, illegal) must equal the reference membership vector.",
